@@ -6,6 +6,7 @@ import KB.Backend
 import KB.Driver.Util
 import KB.Driver.Suites
 import KB.Driver.Sched
+import KB.Driver.Election
 open KB KB.Driver
 
 partial def loop {σ : Type} (h : IO.FS.Stream) (step : σ → List String → σ × String) (st : σ) : IO Unit := do
@@ -29,4 +30,5 @@ def main (args : List String) : IO Unit := do
   match suiteName with
   -- one line per suite: `| "name" => loop stdin Name.step Name.init`
   | "sched" => loop stdin Sched.step Sched.init
+  | "election" => loop stdin Election.step Election.init
   | _ => loop stdin (stepSuite suiteName) (initSuite suiteName [])
